@@ -525,23 +525,45 @@ func c08OpenOnce(r *Run, p *Prog) {
 				opens = append(opens, c)
 			}
 		})
-		opensViaHelper := false
-		if len(opens) == 0 {
-			for _, g := range p.withHelpers(fn, 1)[1:] {
-				eachInstr(g, func(in ssa.Instruction) {
-					if c, ok := in.(*ssa.Call); ok && c.Call.IsInvoke() && (c.Call.Method.Name() == "Open" || c.Call.Method.Name() == "OpenDir") && isP9P(c.Call.Value.Type(), "Dirent") {
-						opensViaHelper = true
-					}
-				})
-			}
-			if !opensViaHelper {
-				continue
-			}
-		}
 		var refParam *ssa.Parameter
 		for _, prm := range fn.Params {
 			if isP9P(prm.Type(), "SFid") {
 				refParam = prm
+			}
+		}
+		// a function that opens its own SFid parameter through a helper (the helper is handed that parameter) is an
+		// open operation too; one that opens some other object through the helper (a local SFid) is not
+		opensViaHelper := false
+		if len(opens) == 0 {
+			if refParam == nil {
+				continue
+			}
+			eachInstr(fn, func(in ssa.Instruction) {
+				c, ok := in.(*ssa.Call)
+				if !ok {
+					return
+				}
+				g := staticCallee(&c.Call)
+				if g == nil || g.Blocks == nil || g.Pkg != fn.Pkg {
+					return
+				}
+				passes := false
+				for _, a := range c.Call.Args {
+					if stripConv(a) == ssa.Value(refParam) {
+						passes = true
+					}
+				}
+				if !passes {
+					return
+				}
+				eachInstr(g, func(in2 ssa.Instruction) {
+					if c2, ok := in2.(*ssa.Call); ok && c2.Call.IsInvoke() && (c2.Call.Method.Name() == "Open" || c2.Call.Method.Name() == "OpenDir") && isP9P(c2.Call.Value.Type(), "Dirent") {
+						opensViaHelper = true
+					}
+				})
+			})
+			if !opensViaHelper {
+				continue
 			}
 		}
 		for _, c := range opens {
